@@ -4,7 +4,7 @@
 // (file name, content) pairs, in-process, under recover() and a wall-clock limit.
 //
 //	c08 run -in BATCH -out RESULTS [-start N] [-skip K] [-scale F] [-maxstack MiB]
-//	    BATCH lines:   <id> <ep,ep,...> <namehex> <contenthex | - | @path:prefixlen>
+//	    BATCH lines:   <id> <ep,ep,...> <namehex> <contenthex | - | @pathhex:prefixlen>
 //	    RESULTS lines: "B <id> <ep>" before a call (flushed) and
 //	                   "R <id> <ep> <outcome> <micros> <limit-micros> <detail...>" after it.
 //	    outcome: ok | err | panic | timeout.  A timeout ends the process with status 3 after
@@ -25,9 +25,11 @@ import (
 	"runtime/debug"
 	"strconv"
 	"strings"
+	"syscall"
 	"time"
 
 	"wa-lang.org/wa/api"
+	"wa-lang.org/wa/internal/ast"
 	"wa-lang.org/wa/internal/format"
 	"wa-lang.org/wa/internal/native/abi"
 	nparser "wa-lang.org/wa/internal/native/parser"
@@ -36,6 +38,7 @@ import (
 	"wa-lang.org/wa/internal/parser"
 	"wa-lang.org/wa/internal/scanner"
 	"wa-lang.org/wa/internal/token"
+	"wa-lang.org/wa/internal/types"
 	watparser "wa-lang.org/wa/internal/wat/parser"
 	watscanner "wa-lang.org/wa/internal/wat/scanner"
 	wattoken "wa-lang.org/wa/internal/wat/token"
@@ -147,6 +150,10 @@ func runEP(ep, name string, content []byte) result {
 	case "loadwz":
 		_, err := api.LoadProgramFile(api.DefaultConfig(), "c08.wz", content)
 		return errResult(err)
+	case "checkwa":
+		return typeCheck("c08.wa", content)
+	case "checkwz":
+		return typeCheck("c08.wz", content)
 	case "wat":
 		_, err := watparser.ParseModule("c08.wat", content)
 		return errResult(err)
@@ -156,6 +163,76 @@ func runEP(ep, name string, content []byte) result {
 		return errResult(err)
 	}
 	panic("harness: unknown entry point " + ep)
+}
+
+const wallFactor = 25
+
+// cpuTime: user+system CPU time of this process so far.
+func cpuTime() time.Duration {
+	var ru syscall.Rusage
+	if err := syscall.Getrusage(syscall.RUSAGE_SELF, &ru); err != nil {
+		return 0
+	}
+	return time.Duration(ru.Utime.Nano() + ru.Stime.Nano())
+}
+
+// fakeImporter lets every import succeed with an empty, complete package.
+type fakeImporter struct{}
+
+func (fakeImporter) Import(path string) (*types.Package, error) {
+	if path == "unsafe" {
+		return types.WaUnsafe, nil
+	}
+	name := path
+	if i := strings.LastIndexByte(name, '/'); i >= 0 {
+		name = name[i+1:]
+	}
+	p := types.NewPackage(path, name, false)
+	p.MarkComplete()
+	return p, nil
+}
+
+// typeCheck: the type checker on whatever AST the parser returns — also the partial AST of a file
+// with syntax errors, which is how internal/lsp/loaderx uses it (half-typed code) — collecting all errors.
+func typeCheck(filename string, content []byte) result {
+	fset := token.NewFileSet()
+	f, perr := parser.ParseFile(nil, fset, filename, content, parser.AllErrors|parser.ParseComments)
+	syn := "synok"
+	if perr != nil {
+		syn = "synerr"
+	}
+	if f == nil {
+		return result{"err", syn + "_noast"}
+	}
+	r := guarded(func() result {
+		if f.Name == nil {
+			f.Name = new(ast.Ident)
+		}
+		if f.Name.Name == "" {
+			f.Name.Name = "main"
+		}
+		var first error
+		conf := types.Config{Importer: fakeImporter{}, Error: func(err error) {
+			if first == nil {
+				first = err
+			}
+		}}
+		info := &types.Info{
+			Types:      make(map[ast.Expr]types.TypeAndValue),
+			Defs:       make(map[*ast.Ident]types.Object),
+			Uses:       make(map[*ast.Ident]types.Object),
+			Implicits:  make(map[ast.Node]types.Object),
+			Selections: make(map[*ast.SelectorExpr]*types.Selection),
+			Scopes:     make(map[ast.Node]*types.Scope),
+		}
+		_, err := conf.Check("main", fset, []*ast.File{f}, info)
+		if first != nil {
+			err = first
+		}
+		return errResult(err)
+	})
+	r.detail = syn + " " + r.detail
+	return r
 }
 
 // time limit: base + perKB per 1024 bytes, times scale.
@@ -190,13 +267,13 @@ func hangSite() string {
 	return "?"
 }
 
-// content spec: hex, "-" (empty) or "@<path>:<n>" = the first n bytes of a file (n<0: whole file)
+// content spec: hex, "-" (empty) or "@<hex of path>:<n>" = the first n bytes of a file (n<0: whole file)
 var fileCache = map[string][]byte{}
 
 func loadContent(spec string) []byte {
 	if strings.HasPrefix(spec, "@") {
 		i := strings.LastIndexByte(spec, ':')
-		path := spec[1:i]
+		path := string(vh.UnHex(spec[1:i]))
 		n, _ := strconv.Atoi(spec[i+1:])
 		d, ok := fileCache[path]
 		if !ok {
@@ -257,15 +334,36 @@ func runBatch(in, out string, start, skip int, scale float64) {
 				copy(c, content)
 				done <- guarded(func() result { return runEP(ep, name, c) })
 			}()
-			select {
-			case r := <-done:
-				us := time.Since(t0).Microseconds()
-				emit(fmt.Sprintf("R %s %s %s %d %d %s", id, ep, r.outcome, us, lim.Microseconds(), r.detail))
-			case <-time.After(lim):
-				emit(fmt.Sprintf("R %s %s timeout %d %d %s", id, ep, time.Since(t0).Microseconds(), lim.Microseconds(), hangSite()))
+			var r result
+			timedOut := ""
+			tick := time.NewTicker(10 * time.Millisecond)
+			cpu0 := cpuTime()
+		wait:
+			for {
+				select {
+				case r = <-done:
+					break wait
+				case <-tick.C:
+					// the limit is on CPU time consumed by this process during the call (robust against an
+					// oversubscribed machine); a call that blocks without computing is caught by wallFactor*limit.
+					if cpuTime()-cpu0 > lim {
+						timedOut = "cpu"
+						break wait
+					}
+					if time.Since(t0) > wallFactor*lim {
+						timedOut = "wall"
+						break wait
+					}
+				}
+			}
+			tick.Stop()
+			cpu := (cpuTime() - cpu0).Microseconds()
+			if timedOut != "" {
+				emit(fmt.Sprintf("R %s %s timeout %d %d %s %s", id, ep, cpu, lim.Microseconds(), hangSite(), timedOut))
 				of.Close()
 				os.Exit(3)
 			}
+			emit(fmt.Sprintf("R %s %s %s %d %d %s", id, ep, r.outcome, cpu, lim.Microseconds(), r.detail))
 		}
 	}
 	emit("END")
